@@ -134,6 +134,22 @@ func checkC03Appbits(r *run, c *AppbitsCase) (CaseInfo, error) {
 	if err != nil || !bytes.Equal(out, img) {
 		return ci, failf("packet with extension profile %#x is re-encoded as %s (err %v), input %s", prof, hx(out), err, hx(img))
 	}
+	// the packet decodes this block as RFC 3550 data: the raw view decodes the same block
+	block := img[12:20]
+	var raw rtp.RawExtension
+	n, err := raw.Unmarshal(clone(block))
+	if err != nil || n != len(block) {
+		return ci, failf("raw view Unmarshal(%s) = (%d,%v), want (%d,nil): the packet decodes this block (profile %#x) as RFC 3550 data", hx(block), n, err, len(block), prof)
+	}
+	if ids := raw.GetIDs(); len(ids) != 1 || ids[0] != 0 {
+		return ci, failf("raw view of %s: GetIDs=%v, want [0]", hx(block), ids)
+	}
+	if got := raw.Get(0); !bytes.HasSuffix(got, block[4:]) {
+		return ci, failf("raw view of %s: Get(0)=%s does not end with the block data", hx(block), hx(got))
+	}
+	if vout, err := raw.Marshal(); err != nil || !bytes.Equal(vout, block) {
+		return ci, failf("raw view of %s re-serialises to %s (err %v)", hx(block), hx(vout), err)
+	}
 
 	return ci, nil
 }
@@ -319,7 +335,7 @@ func genStableCase(t *rapid.T) *StableCase {
 	return &StableCase{In: genHostile(t, "in")}
 }
 
-const ruleC03 = "decode: wire images laid out by the independent reference builder from the RFC 3550/8285 grammar (any CC, one-byte/two-byte/legacy block, 0-5 (occasionally 6-1000) zero bytes before elements, trailing zeros and zero words, arbitrary RTP pad bytes, optional id-15 element with arbitrary tail, one image in six repeating an element id, one in a hundred with 255-700 elements) must decode to the model; canonical layouts must re-encode byte-identically. stable: every accepted input (valid images and 1-3 byte mutations, random strings) must re-encode to an equal packet and a byte-stable image, or report invalid padding for P with zero count. appbits: the 15 profiles 0x1001-0x100F on a block that is well-formed both as RFC 3550 data and as one two-byte element: profile kept, payload right, re-encoded identically. views: One/TwoByteHeaderExtension and RawExtension on the exact block (fresh view values, or ones that decoded another block and answered GetIDs/Get before). Non-trivial = padding between elements / flush element / zero-length element / id-15 / CC>0 with extension and padding (decode), accepted input (stable), block with >=1 element (views); distinct = FNV-64 of the JSON case"
+const ruleC03 = "decode: wire images laid out by the independent reference builder from the RFC 3550/8285 grammar (any CC, one-byte/two-byte/legacy block, 0-5 (occasionally 6-1000) zero bytes before elements, trailing zeros and zero words, arbitrary RTP pad bytes, optional id-15 element with arbitrary tail, one image in six repeating an element id, one in a hundred with 255-700 elements) must decode to the model; canonical layouts must re-encode byte-identically. stable: every accepted input (valid images and 1-3 byte mutations, random strings) must re-encode to an equal packet and a byte-stable image, or report invalid padding for P with zero count. appbits: the 15 profiles 0x1001-0x100F on a block that is well-formed both as RFC 3550 data and as one two-byte element: profile kept, payload right, re-encoded identically, and the raw view decodes and re-serialises the same block. views: One/TwoByteHeaderExtension and RawExtension on the exact block (fresh view values, or ones that decoded another block and answered GetIDs/Get before). Non-trivial = padding between elements / flush element / zero-length element / id-15 / CC>0 with extension and padding (decode), accepted input (stable), block with >=1 element (views); distinct = FNV-64 of the JSON case"
 
 func TestC03(t *testing.T) {
 	r := begin(t, "C03", "exploration", ruleC03)
